@@ -590,13 +590,16 @@ class Parser:
                     t1.txt = ''
                 # in t2, we remove all till including the first newline
                 txt = t2.txt
+                # NB: a token from a macro body is fixed to the macro call
                 if '\n' in txt:
                     pos = txt.find('\n') + 1
                     t2.txt = txt[pos:]
-                    t2.pos += pos
+                    if not t2.pos_fix:
+                        t2.pos += pos
                 else:
                     t2.txt = ''
-                    t2.pos += len(txt)
+                    if not t2.pos_fix:
+                        t2.pos += len(txt)
                 buf = [t1] + lang_toks
                 tokens.append(eval(t2))
                 # NB: we deleted a line break
